@@ -484,6 +484,7 @@ func (sm *shardManagerImpl) retryJoinCluster() {
 func (sm *shardManagerImpl) RegisterShard(clientShardID history.ClusterShardID) time.Time {
 	sm.logger.Info("RegisterShard", tag.NewStringTag("shard", ClusterShardIDtoString(clientShardID)))
 	registeredAt := sm.addLocalShard(clientShardID)
+	verifPoint("RegisterShard.afterAdd")
 	sm.broadcastShardChange("register", clientShardID)
 
 	// Trigger memberlist metadata update to propagate NodeMeta to other nodes
@@ -519,6 +520,7 @@ func (sm *shardManagerImpl) UnregisterShard(clientShardID history.ClusterShardID
 		delete(sm.localShards, key)
 		// Update metrics after local shards change
 		sm.mutex.Unlock()
+		verifPoint("UnregisterShard.afterUnlock")
 
 		sm.removeLocalShard(clientShardID)
 		sm.broadcastShardChange("unregister", clientShardID)
@@ -878,6 +880,9 @@ func (sm *shardManagerImpl) GetIntraProxyTLSConfig() encryption.TLSConfig {
 }
 
 func (sm *shardManagerImpl) broadcastShardChange(msgType string, shard history.ClusterShardID) {
+	if verifTapBroadcast(sm, msgType, shard) {
+		return
+	}
 	if !sm.started || sm.ml == nil || sm.memberlistConfig == nil {
 		return
 	}
